@@ -283,7 +283,8 @@ impl Exec {
             // the object announced by the previous BOXED hook has been allocated meanwhile
             let a = alloc::take_last_tracked();
             if a != 0 {
-                g.trace.push(json!({"e": "alloc", "t": tid, "o": a}));
+                let sz = alloc::lookup(a).map(|x| x.1).unwrap_or(0);
+                g.trace.push(json!({"e": "alloc", "t": tid, "o": a, "sz": sz}));
             }
         }
         if g.aborted {
@@ -397,7 +398,16 @@ impl Exec {
         g.thr[tid].st = St::Running;
         g.thr[tid].steps += 1;
         g.nsteps += 1;
-        if !matches!(wait, Wait::Spin(_)) {
+        // progress = a step that can change what a spinning thread is waiting for: writes, lock
+        // acquisitions, unparks. Loads are not progress: two threads spinning on the same condition
+        // would otherwise keep each other eligible and starve, under a priority strategy, the thread
+        // they are both waiting for.
+        let writes = match kind {
+            fv::STORE | fv::SWAP | fv::CAS | fv::LOCK_PRE | fv::UNPARK_PRE => true,
+            fv::WORD => args.get(2).copied().unwrap_or(0) != 1,
+            _ => false,
+        };
+        if writes && !matches!(wait, Wait::Spin(_)) {
             g.progress += 1;
             g.thr[tid].own_progress += 1;
         }
